@@ -80,7 +80,7 @@ func (g *jsgen) fn(d int, params, ret string) string {
 	return fmt.Sprintf("function(%s){ %s return %s; }", params, g.blk(d), ret)
 }
 
-const nStmtKinds = 52
+const nStmtKinds = 53
 
 func (g *jsgen) stmt(d int) string {
 	l0 := len(g.ctxStack)
@@ -477,6 +477,20 @@ func (g *jsgen) stmt2(k, d int) string {
 		s1 := g.ns()
 		g.ns()
 		return fmt.Sprintf("(function(){ for (var %s of mkIt(%d, 2)) { r += %s; throw new RangeError('leaves the loop'); } })();", x, s1, g.p())
+	case 52:
+		// a finally block that ends with its own abrupt completion (continue / break / return): whatever was pending
+		// when it was entered (nothing in the fault-free run; an injected exception in the faulted one) is cancelled
+		g.use("finally-cancels-pending-completion")
+		switch g.t.Draw(3) {
+		case 0:
+			l, i := g.id("L"), g.id("i")
+			return fmt.Sprintf("%s: for (var %s = 0; %s < 2; %s++) { try { %s } finally { if (%s === 0) continue %s; } }", l, i, i, i, g.blk(d), i, l)
+		case 1:
+			l := g.id("L")
+			return fmt.Sprintf("%s: { try { %s } finally { break %s; } }", l, g.blk(d), l)
+		default:
+			return fmt.Sprintf("r += (function(){ try { %s } finally { return 1; } })(); try { r += %s; } finally { r += %s; }", g.blk(d), g.p(), g.p())
+		}
 	case 45:
 		g.use("arguments/closure")
 		c := g.id("c")
